@@ -80,8 +80,10 @@ def two_stage(channel, ops):
         else:
             # impl column = what the real generator claims (n functions, each balanced)
             n = 0 if i in ("none",) else len(i.split(" "))
-            if i.startswith("HOST") or i in ("hang", "unreadable", "bad-op"):
-                rows.append((op, i, "ok", "-"))
+            if i in ("hang", "unreadable"):
+                rows.append((op, i, i, "-"))        # nothing listed: nothing to validate
+            elif i.startswith("HOST") or i == "bad-op":
+                rows.append((op, i, "a listing", "-"))
             else:
                 rows.append((op, "ok %d" % n, m, "-"))
     return rows
